@@ -1541,6 +1541,19 @@ pub fn run(cx: &mut Ctx) {
             }
         }
     }
+    // budgets at the top of the `usize` range: nothing needs fragmenting, nothing may fail or wrap
+    for &m in &[1usize << 32, usize::MAX / 2, usize::MAX - 12, usize::MAX - 1, usize::MAX] {
+        for (si, shape) in shapes.iter().enumerate().take(2) {
+            for pref in [None, Some(0u8), Some(6)] {
+                let body = body_of(&mut rng, 3000 + si);
+                let mut sess = Session::new(m, 60000);
+                run_download(cx, &Download { shape, ep: 1, m, body, resp_opts: vec![], first_szx: pref, reduce_at: None, followup_toks: vec![] }, &mut sess, false);
+            }
+            let post = ReqShape { code: 2, ..shape.clone() };
+            let mut sess = Session::new(m, 60000);
+            run_upload(cx, &Upload { shape: &post, ep: 1, m, body: body_of(&mut rng, 200), szx: 2, dups: vec![1], abandoned: None, dup_final: 0, fresh_tokens: false }, &mut sess);
+        }
+    }
     // budgets far above one block (a large MTU, the `udp` limit of 64000): a body larger than the budget
     // must still be served block-wise (at most 1024-byte blocks), and a too-large request answered 4.13
     for &m in &[1500usize, 2100, 3000, 4200, 5000, 20000, 64000] {
